@@ -10,6 +10,7 @@ import (
 	"fmt"
 	"io"
 	"regexp"
+	"strconv"
 	"strings"
 	"testing"
 	"unicode/utf8"
@@ -37,6 +38,24 @@ type Case struct {
 	Data   map[string]vals.V `json:"data,omitempty"`
 	Bound  map[string]string `json:"bound,omitempty"` // hole -> attribute name for :attr="hN"
 	VHtml  []string          `json:"vhtml,omitempty"` // holes used with v-html
+	// Paths: hole -> path suffix (".home", "[1]", ".0"): the hole is written {{ hN.home }} and reads
+	// an ELEMENT of a typed map / slice whose string form comes from a pointer-receiver or
+	// interface method (*url.URL, *big.Int, error).
+	Paths map[string]string `json:"paths,omitempty"`
+}
+
+// element returns the description of the element a path hole reads.
+func element(v vals.V, suffix string) vals.V {
+	kind := map[string]string{"map*url": "url", "[]*url": "url", "maperr": "err", "[]err": "err", "map*big": "bigint"}[v.K]
+	key := strings.Trim(suffix, ".[]'\"")
+	if v.M != nil {
+		return vals.V{K: kind, S: v.M[key].S}
+	}
+	i, _ := strconv.Atoi(key)
+	if i < len(v.L) {
+		return vals.V{K: kind, S: v.L[i].S}
+	}
+	return vals.Nil()
 }
 
 var entriesFrag = []string{"string", "byte", "reader", "load", "file", "vue", "frag"}
@@ -90,6 +109,10 @@ func expectedSource(c Case) string {
 	s := c.Source
 	for name, v := range c.Data {
 		str := fmt.Sprint(v.Go())
+		if suffix, ok := c.Paths[name]; ok {
+			str = fmt.Sprint(element(v, suffix).Go())
+			s = strings.ReplaceAll(s, "{{ "+name+suffix+" }}", "{{ "+name+" }}")
+		}
 		esc := xhtml.EscapeString(str) // x/net: also spells CR as &#13; (a raw CR would be normalised to LF)
 		if attr, ok := c.Bound[name]; ok {
 			s = strings.ReplaceAll(s, ` :`+attr+`="`+name+`"`, ` `+attr+`="`+esc+`"`)
@@ -107,7 +130,8 @@ func expectedSource(c Case) string {
 }
 
 func preHole(name string) *regexp.Regexp {
-	return regexp.MustCompile(`(<(?:pre|textarea)(?:\s[^>]*)?>)\{\{ ` + name + ` \}\}`)
+	// (attribute values are quoted and may contain '>')
+	return regexp.MustCompile(`(<(?:pre|textarea)(?:\s(?:[^>"']|"[^"]*"|'[^']*')*)?>)\{\{ ` + name + ` \}\}`)
 }
 
 func parse(s string, doc bool) ([]*hx.N, error) {
@@ -277,7 +301,11 @@ func (g *gctx) hole() (string, bool) {
 }
 
 func (g *gctx) scalar() vals.V {
-	switch rapid.IntRange(0, 4).Draw(g.t, "vk") {
+	vk := rapid.IntRange(0, 40).Draw(g.t, "vk")
+	if vk > 5 {
+		vk = vk % 5
+	}
+	switch vk {
 	case 0:
 		return vals.Str(g.decoded("hv"))
 	case 1:
@@ -286,13 +314,43 @@ func (g *gctx) scalar() vals.V {
 		return vals.Num(rapid.SampledFrom([]string{"float64", "float64", "float32"}).Draw(g.t, "fk"), rapid.SampledFrom([]string{"1.5", "0.25", "3", "-2.5", "1000000", "1e21", "0.00001", "123456789.5", "2.5e-7", "100000", "1e6", "16777216"}).Draw(g.t, "fv"))
 	case 3:
 		return vals.Bool(true)
+	case 5:
+		// a value longer than the 4 KiB blocks writers and escapers like to work in
+		n := rapid.SampledFrom([]int{4095, 4096, 4097, 5000, 9000, 70000}).Draw(g.t, "bign")
+		return vals.Str(strings.Repeat("ab c", n/4) + rapid.SampledFrom([]string{"", "<b>&\"'", " tail"}).Draw(g.t, "bigtail"))
 	default:
 		return vals.Str(rapid.SampledFrom([]string{"<script>alert(1)</script>", `"><img src=x>`, "a&b", "&lt;", "{{ x }}", "plain", "it's", "line one\r\nline two", "a\rb", "tab\there", "", ""}).Draw(g.t, "hs"))
 	}
 }
 
+// elementHole returns a value description and the path suffix of one of its elements.
+func (g *gctx) elementHole() (vals.V, string) {
+	e := func(s string) vals.V { return vals.V{S: s} }
+	switch rapid.IntRange(0, 4).Draw(g.t, "ek") {
+	case 0:
+		return vals.V{K: "map*url", M: map[string]vals.V{"home": e("https://example.com/docs/start?lang=en&v=2#top"), "rel": e("/a b/<c>")}}, rapid.SampledFrom([]string{".home", ".rel", "['home']"}).Draw(g.t, "ep")
+	case 1:
+		return vals.V{K: "[]*url", L: []vals.V{e("mailto:a@b.c"), e("http://h/p?q=1&r=2")}}, rapid.SampledFrom([]string{"[0]", "[1]", ".1"}).Draw(g.t, "ep")
+	case 2:
+		return vals.V{K: "maperr", M: map[string]vals.V{"disk": e("disk full"), "net": e("dial <tcp>: refused & closed")}}, rapid.SampledFrom([]string{".disk", ".net"}).Draw(g.t, "ep")
+	case 3:
+		return vals.V{K: "[]err", L: []vals.V{e("first"), e("second \"quoted\"")}}, rapid.SampledFrom([]string{"[0]", "[1]"}).Draw(g.t, "ep")
+	default:
+		return vals.V{K: "map*big", M: map[string]vals.V{"n": e("340282366920938463463374607431768211456"), "neg": e("-18446744073709551616")}}, rapid.SampledFrom([]string{".n", ".neg"}).Draw(g.t, "ep")
+	}
+}
+
 func (g *gctx) text() string {
 	if name, ok := g.hole(); ok {
+		if rapid.IntRange(0, 7).Draw(g.t, "elem?") == 0 {
+			v, suffix := g.elementHole()
+			g.holes.Data[name] = v
+			if g.holes.Paths == nil {
+				g.holes.Paths = map[string]string{}
+			}
+			g.holes.Paths[name] = suffix
+			return "{{ " + name + suffix + " }}"
+		}
 		g.holes.Data[name] = g.scalar()
 		l, r := "", ""
 		if rapid.Bool().Draw(g.t, "l") {
